@@ -1,6 +1,6 @@
 """C07 — configured peer authentication is enforced (SOCKS credentials part)."""
 import harness
-from specs import replies, codec
+from specs import replies, codec, tlspolicy
 
 
 def run(ck):
@@ -9,10 +9,11 @@ def run(ck):
     import contracts_async  # noqa
     ck.plans.append(codec.replay_plan)
     ck.assumptions += ['every await completes', 'the external auth command and the verdict cache are a symbolic boolean']
-    ck.out_of_scope += ['all TLS / mTLS / QUIC certificate statements (rustls/webpki internals)', 'timer accuracy of the cache\'s removal task (its body -- sleep exactly the time-out, remove exactly the key -- IS decided)']
+    ck.out_of_scope += ['what rustls / webpki do with a verifier (chain building, name matching); WHICH client-certificate verifier each server configuration installs IS decided', 'timer accuracy of the cache\'s removal task (its body -- sleep exactly the time-out, remove exactly the key -- IS decided)']
     codec.spec_socks_request_reader(ck, 'PasswordAuth')
     replies.spec_socks_handshake(ck)
     replies.spec_auth_check(ck)
     replies.spec_auth_cache(ck)
     replies.spec_auth_cache_expiry(ck)
+    tlspolicy.spec_server_client_cert_policy(ck)
     ck.post_filter = lambda o: o.label.startswith('C07/') or o.status in ('undecided', 'vacuous', 'inconclusive')
